@@ -944,7 +944,7 @@ impl<'p> World<'p> {
         let op = format!("wrap-{}-{}", wk.name(), krec.kind.name());
         let iv = self.plan.iv.clone();
         if let Some(cost) = if wk == WrapKind::Pw { pw_cost(text) } else { None } {
-            if !cost.within_budget() {
+            if cost.mem > 1100 * 1024 * 1024 || cost.time > 12 || cost.iter > 5_000_000 {
                 return;
             }
         }
@@ -1428,17 +1428,6 @@ impl<'p> World<'p> {
         }
         let fclass = if applied.is_empty() { "none".to_string() } else { applied.join("+") };
 
-        // cost budget (C04): attacker-chosen KDF parameters beyond the budget are not executed
-        if wk == WrapKind::Pw {
-            if let Some(cost) = pw_cost(&text) {
-                if !cost.within_budget() {
-                    self.stats.bump("skipped:cost-budget");
-                    self.obs("skip cost-budget");
-                    return;
-                }
-            }
-        }
-
         // ideal key store
         let mut authentic: Option<BlobRec> = None;
         if let Some(slots) = self.stored.get(&text) {
@@ -1446,6 +1435,18 @@ impl<'p> World<'p> {
                 let b = &self.blobs[s];
                 if b.family == bk.family() && b.wk == wk && b.key_kind == kk && same_secret(b.family, wk, &b.secret, &sec_raw) {
                     authentic = Some(b.clone());
+                }
+            }
+        }
+
+        // cost budget (C04): attacker-chosen KDF parameters beyond the budget are not executed;
+        // a blob read back exactly as an honest node stored it is always executed
+        if wk == WrapKind::Pw && authentic.is_none() {
+            if let Some(cost) = pw_cost(&text) {
+                if !cost.within_budget() {
+                    self.stats.bump("skipped:cost-budget");
+                    self.obs("skip cost-budget");
+                    return;
                 }
             }
         }
